@@ -16,6 +16,7 @@
     actions / changes   the `action` / `onChange` events of a log.
   Tie to the source: NV.Gen.Manager (constants, the two comparisons) is regenerated on every run.
 -/
+import NV.Gen.PkgState
 import NV.Lemmas.Manager
 import NV.Gen.Manager
 import NV.Driver.EpEq
@@ -361,5 +362,12 @@ theorem other_bootstrap_other_endpoint (h p : Bytes) (bs bs' : List Bytes) (hne 
 
 example : NV.epEqual (.doh [1] [] [[10], [11]]) (.doh [1] [] [[10], [12]]) = false ∧
     NV.epEqual (.doh [1] [] [[10]]) (.dns [10]) = false := by decide
+
+/-- **regenerated (no hidden state between exchanges)**, as `NV.C03.gen_no_hidden_process_state`: no package-level variable of
+the query-path packages is written after initialisation except the root-certificate pool — an election sees the candidates and their probes of that election only. -/
+theorem gen_no_hidden_process_state :
+    (Gen.PkgState.table.all fun r =>
+      r.2.2.isEmpty || (r.1 == "resolver/endpoint" && (r.2.1 == "rootCAInit" || r.2.1 == "rootCAs"))) = true := by
+  decide
 
 end NV.C08
